@@ -266,6 +266,11 @@ Definition quote_ok (st : QuoteMore.style) (t : tok) : bool :=
   | TStr QDouble _ b => match QuoteMore.choose st b with QD => true | QS => false end
   | _ => true
   end.
+(* the expression is, or once formatted begins with, a long-bracket string (expression.rs is_brackets_string): behind the `[` of an
+   index or of a table key it is kept away from the bracket by a blank on either side, or `[ [[s]] ]` would read `[[[s]]]` *)
+Fixpoint bstr (e : exp) : bool :=
+  match e with EBrk _ _ => true | EParen x => bstr x | EBin _ l _ => bstr l | _ => false end.
+Definition brk (b : bool) (xs : list tok) : list tok := if b then kw "[" :: sp :: xs ++ [sp; kw "]"] else kw "[" :: xs ++ [kw "]"].
 Section PExp.
 Variable c : cfg0.
 (* space_after_function_names (context.rs / functions.rs create_function_call_trivia): a blank before the `(` of a call
@@ -282,7 +287,7 @@ Fixpoint pexp (d : nat) (e : exp) {struct e} : list tok :=
   | ENum s => [TNum (Number.number_rewrite s)] | EStr s => [pstr (style0 c) s] | EName n => [TIdent n]
   | EBrk n b => [TStr QBrackets n b]
   | EField p n => pexp d p ++ [kw "."; TIdent n]
-  | EIndex p k => pexp d p ++ kw "[" :: pexp d k ++ [kw "]"]
+  | EIndex p k => pexp d p ++ brk (bstr k) (pexp d k)
   | ECall f sg args => pexp d f ++ pargs (sg && sugarable args) (commas (map (pexp d) args))
   | EMethod o m sg args => pexp d o ++ kw ":" :: TIdent m :: pargs (sg && sugarable args) (commas (map (pexp d) args))
   | EUn u x => uop_toks u ++ pexp d x
@@ -292,7 +297,7 @@ Fixpoint pexp (d : nat) (e : exp) {struct e} : list tok :=
   | ETable fs => kw "{" :: sp :: commas (map (pexp d) fs) ++ [sp; kw "}"]
   | FPos x => pexp d x
   | FNamed n x => TIdent n :: sp :: kw "=" :: sp :: pexp d x
-  | FKey k x => kw "[" :: pexp d k ++ kw "]" :: sp :: kw "=" :: sp :: pexp d x
+  | FKey k x => brk (bstr k) (pexp d k) ++ sp :: kw "=" :: sp :: pexp d x
   | ETableML [] => [kw "{"; kw "}"]
   | ETableML fs =>
     kw "{" :: eol c :: List.concat (map (fun x =>
